@@ -274,36 +274,56 @@ Fixpoint lit_of_default {D} (ts : list (itype D)) (v : pv) (t : iref) {struct v}
 (* ------------------------------------------------------------------ *)
 (* public: what a client is entitled to see *)
 
-Definition public_input (ts : list (itype pv)) (iv : iinput pv) : iinput lit :=
-  IInput (iv_name iv) (iv_desc iv) (iv_type iv)
-         (option_map (fun v => lit_of_default ts v (iv_type iv)) (iv_default iv)).
-
-Definition public_field (ts : list (itype pv)) (f : ifield pv) : ifield lit :=
-  IField (f_name f) (f_desc f) (map (public_input ts) (f_args f)) (f_type f) (f_deprecated f) (f_reason f).
-
 Definition public_enum_value (e : ienumval) : ienumval :=
   IEnumVal (ev_name e) (ev_desc e) (ev_deprecated e) (ev_reason e) PNone.
 
-Definition public_def (ts : list (itype pv)) (d : itypedef pv) : itypedef lit :=
-  match d with
-  | IScalar => IScalar
-  | IObject fs ifs => IObject (map (public_field ts) fs) ifs
-  | IInterface fs => IInterface (map (public_field ts) fs)
-  | IUnion ms => IUnion (sort_by (fun n => n) ms)
-  | IEnum vs => IEnum (map public_enum_value vs)
-  | IInputObject ivs => IInputObject (map (public_input ts) ivs)
-  end.
+(* [pd t d]: how the default [d] declared at a position of type [t] is shown.
+   [pd_exact]: as the literal denoting it; [pd_none]: not at all (the shape
+   of the schema, defaults disregarded). *)
+Section PublicWith.
+  Variable pd : iref -> option pv -> option lit.
 
-Definition public_type (ts : list (itype pv)) (t : itype pv) : itype lit :=
-  IType (t_name t) (t_desc t) (public_def ts (t_def t)).
+  Definition public_input_with (iv : iinput pv) : iinput lit :=
+    IInput (iv_name iv) (iv_desc iv) (iv_type iv) (pd (iv_type iv) (iv_default iv)).
 
-Definition public_directive (ts : list (itype pv)) (d : idirective pv) : idirective lit :=
-  IDirective (dr_name d) (dr_desc d) (dr_locations d) (map (public_input ts) (dr_args d)).
+  Definition public_field_with (f : ifield pv) : ifield lit :=
+    IField (f_name f) (f_desc f) (map public_input_with (f_args f)) (f_type f) (f_deprecated f) (f_reason f).
 
-Definition public (s : ischema pv) : ischema lit :=
-  ISchema (sort_by t_name (map (public_type (s_types s)) (s_types s)))
-          (sort_by dr_name (map (public_directive (s_types s)) (s_directives s)))
-          (s_query s) (s_mutation s) (s_subscription s).
+  Definition public_def_with (d : itypedef pv) : itypedef lit :=
+    match d with
+    | IScalar => IScalar
+    | IObject fs ifs => IObject (map public_field_with fs) ifs
+    | IInterface fs => IInterface (map public_field_with fs)
+    | IUnion ms => IUnion (sort_by (fun n => n) ms)
+    | IEnum vs => IEnum (map public_enum_value vs)
+    | IInputObject ivs => IInputObject (map public_input_with ivs)
+    end.
+
+  Definition public_type_with (t : itype pv) : itype lit :=
+    IType (t_name t) (t_desc t) (public_def_with (t_def t)).
+
+  Definition public_directive_with (d : idirective pv) : idirective lit :=
+    IDirective (dr_name d) (dr_desc d) (dr_locations d) (map public_input_with (dr_args d)).
+
+  Definition public_with (s : ischema pv) : ischema lit :=
+    ISchema (sort_by t_name (map public_type_with (s_types s)))
+            (sort_by dr_name (map public_directive_with (s_directives s)))
+            (s_query s) (s_mutation s) (s_subscription s).
+End PublicWith.
+
+Definition pd_exact (ts : list (itype pv)) (t : iref) (d : option pv) : option lit :=
+  option_map (fun v => lit_of_default ts v t) d.
+Definition pd_none (t : iref) (d : option pv) : option lit := None.
+
+Definition public_input (ts : list (itype pv)) := public_input_with (pd_exact ts).
+Definition public_field (ts : list (itype pv)) := public_field_with (pd_exact ts).
+Definition public_def (ts : list (itype pv)) := public_def_with (pd_exact ts).
+Definition public_type (ts : list (itype pv)) := public_type_with (pd_exact ts).
+Definition public_directive (ts : list (itype pv)) := public_directive_with (pd_exact ts).
+Definition public (s : ischema pv) : ischema lit := public_with (pd_exact (s_types s)) s.
+
+(* the schema with its default values disregarded *)
+Definition public_shape (s : ischema pv) : ischema lit := public_with pd_none s.
 
 (* ------------------------------------------------------------------ *)
 (* decode: reading the answer tree *)
@@ -358,17 +378,21 @@ Definition decode_default (v : option pv) : option (option lit) :=
   | _ => None
   end.
 
-Definition decode_input (v : pv) : option (iinput lit) :=
+Section DecodeWith.
+  (* how a reported defaultValue entry is read *)
+  Variable dd : option pv -> option (option lit).
+
+Definition decode_input_with (v : pv) : option (iinput lit) :=
   let? n := as_str (getk (S_ "name") v) in
   let? d := as_opt_str (getk (S_ "description") v) in
   let? t := obind_ (getk (S_ "type") v) (decode_ref 8) in
-  let? dv := decode_default (getk (S_ "defaultValue") v) in
+  let? dv := dd (getk (S_ "defaultValue") v) in
   Some (IInput n d t dv).
 
-Definition decode_field (v : pv) : option (ifield lit) :=
+Definition decode_field_with (v : pv) : option (ifield lit) :=
   let? n := as_str (getk (S_ "name") v) in
   let? d := as_opt_str (getk (S_ "description") v) in
-  let? args := obind_ (as_list (getk (S_ "args") v)) (map_opt decode_input) in
+  let? args := obind_ (as_list (getk (S_ "args") v)) (map_opt decode_input_with) in
   let? t := obind_ (getk (S_ "type") v) (decode_ref 8) in
   let? dep := as_bool (getk (S_ "isDeprecated") v) in
   let? r := as_opt_str (getk (S_ "deprecationReason") v) in
@@ -384,18 +408,18 @@ Definition decode_enum_value (v : pv) : option ienumval :=
 Definition decode_named_ref (v : pv) : option str :=
   match decode_ref 8 v with Some (IRNamed n) => Some n | _ => None end.
 
-Definition decode_type (v : pv) : option (itype lit) :=
+Definition decode_type_with (v : pv) : option (itype lit) :=
   let? k := as_str (getk (S_ "kind") v) in
   let? n := as_str (getk (S_ "name") v) in
   let? d := as_opt_str (getk (S_ "description") v) in
   let? def :=
     (if str_eqb k (S_ "SCALAR") then Some IScalar
      else if str_eqb k (S_ "OBJECT") then
-       let? fs := obind_ (as_list (getk (S_ "fields") v)) (map_opt decode_field) in
+       let? fs := obind_ (as_list (getk (S_ "fields") v)) (map_opt decode_field_with) in
        let? ifs := obind_ (as_list (getk (S_ "interfaces") v)) (map_opt decode_named_ref) in
        Some (IObject fs ifs)
      else if str_eqb k (S_ "INTERFACE") then
-       let? fs := obind_ (as_list (getk (S_ "fields") v)) (map_opt decode_field) in
+       let? fs := obind_ (as_list (getk (S_ "fields") v)) (map_opt decode_field_with) in
        Some (IInterface fs)
      else if str_eqb k (S_ "UNION") then
        let? ms := obind_ (as_list (getk (S_ "possibleTypes") v)) (map_opt decode_named_ref) in
@@ -404,16 +428,16 @@ Definition decode_type (v : pv) : option (itype lit) :=
        let? vs := obind_ (as_list (getk (S_ "enumValues") v)) (map_opt decode_enum_value) in
        Some (IEnum vs)
      else if str_eqb k (S_ "INPUT_OBJECT") then
-       let? ivs := obind_ (as_list (getk (S_ "inputFields") v)) (map_opt decode_input) in
+       let? ivs := obind_ (as_list (getk (S_ "inputFields") v)) (map_opt decode_input_with) in
        Some (IInputObject ivs)
      else None) in
   Some (IType n d def).
 
-Definition decode_directive (v : pv) : option (idirective lit) :=
+Definition decode_directive_with (v : pv) : option (idirective lit) :=
   let? n := as_str (getk (S_ "name") v) in
   let? d := as_opt_str (getk (S_ "description") v) in
   let? locs := obind_ (as_list (getk (S_ "locations") v)) (map_opt (fun x => as_str (Some x))) in
-  let? args := obind_ (as_list (getk (S_ "args") v)) (map_opt decode_input) in
+  let? args := obind_ (as_list (getk (S_ "args") v)) (map_opt decode_input_with) in
   Some (IDirective n d locs args).
 
 Definition decode_root (v : option pv) : option (option str) :=
@@ -423,15 +447,28 @@ Definition decode_root (v : option pv) : option (option str) :=
   | None => None
   end.
 
-Definition decode (data : pv) : option (ischema lit) :=
+Definition decode_with (data : pv) : option (ischema lit) :=
   let? sc := getk (S_ "__schema") data in
   let? q := decode_root (getk (S_ "queryType") sc) in
   let? qn := q in
   let? m := decode_root (getk (S_ "mutationType") sc) in
   let? su := decode_root (getk (S_ "subscriptionType") sc) in
-  let? ts := obind_ (as_list (getk (S_ "types") sc)) (map_opt decode_type) in
-  let? ds := obind_ (as_list (getk (S_ "directives") sc)) (map_opt decode_directive) in
+  let? ts := obind_ (as_list (getk (S_ "types") sc)) (map_opt decode_type_with) in
+  let? ds := obind_ (as_list (getk (S_ "directives") sc)) (map_opt decode_directive_with) in
   Some (ISchema ts ds qn m su).
+
+End DecodeWith.
+
+Definition decode_input := decode_input_with decode_default.
+Definition decode_field := decode_field_with decode_default.
+Definition decode_type := decode_type_with decode_default.
+Definition decode_directive := decode_directive_with decode_default.
+Definition decode (data : pv) : option (ischema lit) := decode_with decode_default data.
+
+(* reading everything but the default values (the entry must be there) *)
+Definition dd_ignore (v : option pv) : option (option lit) :=
+  match v with Some _ => Some None | None => None end.
+Definition decode_shape (data : pv) : option (ischema lit) := decode_with dd_ignore data.
 
 (* ------------------------------------------------------------------ *)
 (* hypotheses of the exactness theorem *)
@@ -610,3 +647,38 @@ Fixpoint sel_meta_free (p : psel) : bool :=
   | PSField _ n sub => negb (is_meta_name n) && forallb sel_meta_free sub
   | _ => false
   end.
+
+(* ------------------------------------------------------------------ *)
+(* the includeDeprecated law, on answer trees: removing the members marked
+   deprecated from every "fields" / "enumValues" list of an answer given with
+   includeDeprecated: true *)
+
+Definition is_deprecated_entry (v : pv) : bool :=
+  match getk (S_ "isDeprecated") v with Some (PBool true) => true | _ => false end.
+
+Fixpoint update_key (k : str) (f : pv -> pv) (kvs : list (str * pv)) : list (str * pv) :=
+  match kvs with
+  | [] => []
+  | (k', v) :: r => if str_eqb k k' then (k', f v) :: r else (k', v) :: update_key k f r
+  end.
+
+Definition on_dict (k : str) (f : pv -> pv) (v : pv) : pv :=
+  match v with PDict kvs => PDict (update_key k f kvs) | _ => v end.
+
+(* a null list stays null, a list keeps its non-deprecated entries in order *)
+Definition drop_deprecated_list (v : pv) : pv :=
+  match v with
+  | PList l => PList (filter (fun x => negb (is_deprecated_entry x)) l)
+  | _ => v
+  end.
+
+Definition drop_deprecated_type (v : pv) : pv :=
+  on_dict (S_ "enumValues") drop_deprecated_list (on_dict (S_ "fields") drop_deprecated_list v).
+
+Definition drop_deprecated_types (v : pv) : pv :=
+  match v with PList l => PList (map drop_deprecated_type l) | _ => v end.
+
+(* on the answer of the introspection query / of a __type(name:) query *)
+Definition drop_deprecated (data : pv) : pv :=
+  on_dict (S_ "__schema") (on_dict (S_ "types") drop_deprecated_types) data.
+Definition drop_deprecated_type_query (data : pv) : pv := on_dict (S_ "__type") drop_deprecated_type data.
